@@ -384,6 +384,22 @@ fn rcases(thorough: bool, seed: u64) -> Vec<RCase> {
             d, dseed: rng.below(251), kind: if long { 4 } else { rng.below(4) as u32 }, api: rng.below(3) as u32, iseed: rng.next() >> 16,
         });
     }
+    // ring-wrap class: stream longer than the encoder ring behind a dictionary whose length is not a block multiple, so
+    // that meta-blocks straddle the ring end (InputPair with two non-empty halves); incompressible input (stored
+    // meta-blocks, context_type None) and mixed input; high-entropy detection on and off
+    let nw = if thorough { 160 } else { 40 };
+    for i in 0..nw {
+        let q = [2, 3, 4, 5, 6, 9, 7, 10][i % 8];
+        let lgwin = if q >= 10 { 10 } else { *rng.pick(&[10i32, 10, 12]) };
+        let d = *rng.pick(&[1usize, 3, 17, 333, 999, 1001, 1007]);
+        cs.push(RCase {
+            hist: false, lgwin, q, mode: rng.below(3) as u32,
+            stride: *rng.pick(&[0u8, 0, 1]), hedq: *rng.pick(&[1u8, 1, 2, 0]), cdf: *rng.pick(&[0u8, 0, 1]), prior: 0,
+            catable: false, appendable: rng.chance(1, 4), magic: false, use_dict: true,
+            large: false, lgblock: 0, size_hint: 0,
+            d, dseed: rng.below(251), kind: if i % 2 == 0 { 7 } else { 6 }, api: rng.below(3) as u32, iseed: rng.next() >> 16,
+        });
+    }
     // streaming histories: PROCESS chunk / FLUSH / ... / FINISH with the callback installed
     let nh = if thorough { 6000 } else { 1200 };
     for i in 0..nh {
